@@ -28,6 +28,36 @@ def tlc_corpus(ctx, module, cfgs, timeout=7200):
     return out
 
 
+def stream_corpus(ctx, module, cfgs, batch_lines=20000, timeout=7200):
+    """Like tlc_corpus, but memory-bounded: yields lists of (doc, cases) built from `batch_lines` emitted lines at a time
+    (a document whose chunks fall into two batches is simply met twice, each time with part of its cases)."""
+    import json
+    for cfg in cfgs:
+        f = ctx.path(cfg + ".cases")
+        r = core.run_tlc(ctx, module, cfg, env={"CASES_OUT": f}, timeout=timeout)
+        if r["violated"]:
+            raise core.MachineryError("%s violated in %s (see %s)" % (r["violated"], cfg, r["log"]))
+        docs = collections.OrderedDict()
+        n = 0
+        with open(f) as fh:
+            for line in fh:
+                line = line.strip()
+                if not line:
+                    continue
+                v = json.loads(line)
+                if isinstance(v, str):
+                    v = json.loads(v)
+                docs.setdefault(v["key"], [v["doc"], []])[1].extend(v["cases"])
+                n += 1
+                if n >= batch_lines:
+                    yield [(d, cs) for d, cs in docs.values()]
+                    docs = collections.OrderedDict()
+                    n = 0
+        if docs:
+            yield [(d, cs) for d, cs in docs.values()]
+        os.remove(f)
+
+
 def _chunks(seq, n):
     for i in range(0, len(seq), n):
         yield seq[i:i + n]
